@@ -155,6 +155,15 @@ def gen_case(rng):
     kinds = ('contract', 'transport', 'storage', 'storage', 'multi', 'plant', 'plant', 'chp', 'scaled', 'coarse', 'storage_mip', 'orderbook')
     base = gen.gen_mixed_portfolio(rng, kinds=kinds, grid_kw={'steps': (4, 24), 'dst': bool(rng.random() < 0.45)}, n_assets=(2, 5), n_nodes=(1, 3))
     spec = gen.strip_private(base)
+    T_ = len(gen.grid_points(spec['grid']))
+    st_ = float(pd.Timedelta(pd.tseries.frequencies.to_offset(spec['grid']['freq'])) / pd.Timedelta(1, spec['grid']['unit']))
+    for a in spec['assets']:
+        if a['type'] in ('Plant', 'CHPAsset') and abs(st_ - 1.) < 1e-12 and T_ >= 12 and rng.random() < 0.5:
+            # durations of 5, 7, 10 steps: in another main unit they become fractions like 5/24 that must convert back to exactly 5 steps
+            kq = int(gen.pick(rng, [5, 7, 10]))
+            a[gen.pick(rng, ['min_runtime', 'min_downtime'])] = float(kq)
+            if a.get('min_downtime', 0) > 1 and not a.get('time_already_off') and not a.get('time_already_running'):
+                a['time_already_off'] = 1.
     for a in spec['assets']:
         if a.get('start_ramp_lower_bounds') is not None:
             # ramp profiles take part with an EXPLICIT profile frequency (the default frequency is the main unit itself, i.e. changes with it):
